@@ -8,6 +8,7 @@ OUT=/verif/seeded/RESULTS.tsv
 : > $OUT.tmp
 for d in seeded/*/; do
   name=$(basename $d); prop=${name%%-*}
+  case "$prop" in C[0-9]*) ;; *) prop=$(python3 -c "import json,sys; print(json.load(open('$d/meta.json'))['property'])" 2>/dev/null);; esac
   [ -f $d/patch.diff ] || continue
   props=$prop; [ "$1" = "all" ] && props=$ALL
   tools/try_seed.sh $d $props > /tmp/try/matrix.$name.log 2>&1
